@@ -84,7 +84,7 @@ def jobs(tier: str) -> list:
             part(f"expr2[{s}]", {"PARTS": '{"expr"}', "MAXSPINE": 2, "FULLDEPTH": 2, "SLOTSET": tset([s]), "SPINESLOTS": tset([s]),
                                  "DEEPLEAVES": tset(["name", "attr2", "attr3", "strattr", "str"])}, domains=("all",))
         part("expr3", {"PARTS": '{"expr"}', "MAXSPINE": 3, "FULLDEPTH": 2, "SLOTSET": '{"function.returns"}', "SPINESLOTS": '{"function.returns"}',
-                       "DEEPLEAVES": '{"name", "attr2", "strattr"}'})
+                       "DEEPLEAVES": '{"name", "attr2", "strattr"}'}, domains=("all", "clean"))   # (no defect is left in the expr part)
     return out
 
 
